@@ -287,7 +287,7 @@ impl Check for C13 {
         vec!["NaN limits / NaN type bounds and inverted limits are outside the stated limit settings (C08 covers 'no panic' for them)".into()]
     }
     fn budget(t: Tier) -> usize {
-        t.pick(60_000, 1_500_000)
+        t.pick(60_000, 15_000_000)
     }
     fn gen(s: &mut Src, _t: Tier) -> Case {
         let shape = s.weighted(&[3, 2, 2]);
